@@ -38,8 +38,14 @@ class DDict(dict):
 
 
 class IterVal:
+    """a one-shot iterator (iter(...), a generator, a generator expression): whatever iterates it CONSUMES it"""
+
     def __init__(self, seq):
         self.seq = seq
+
+    def drain(self):
+        s, self.seq = self.seq, []
+        return s
 
 
 # ---------------------------------------------------------------------- sequences
@@ -320,7 +326,7 @@ class SymKeyDict:
 def iterate(I, v):
     """Concrete list of the elements (loops are unrolled); symbolic lengths are out of subset."""
     if isinstance(v, IterVal):
-        v = v.seq
+        v = v.drain()
     if isinstance(v, (list, tuple)):
         return list(v)
     if isinstance(v, dict):
@@ -355,7 +361,7 @@ def build_seq(I, elts, kind):
         if isinstance(e, ast.Starred):
             v = I.eval(e.value)
             if isinstance(v, IterVal):
-                v = v.seq
+                v = v.drain()
             if isinstance(v, SymSeq) and not isinstance(v.length, int):
                 if cur:
                     parts.append(cur)
@@ -377,7 +383,7 @@ def comprehension(I, elt, gens, kind):
     g = gens[0]
     it = I.eval(g.iter)
     if isinstance(it, IterVal):
-        it = it.seq
+        it = it.drain()
     symbolic = isinstance(it, SymSeq) and concrete_len(I, it.length) is None
     if not symbolic:
         out = []
@@ -502,7 +508,7 @@ def _nested_range_comprehension(I, elt, gens, kind):
         for gg in gens:
             it = I.eval(gg.iter)
             if isinstance(it, IterVal):
-                it = it.seq
+                it = it.drain()
             if not isinstance(it, SymSeq):
                 it = as_symseq(it)
             d = z3.Int(I.path.fresh_name("d_c"))
@@ -549,9 +555,9 @@ def binop(I, op, a, b):
         if r is not NotImplemented:
             return r
     if isinstance(a, IterVal):
-        a = a.seq
+        a = a.drain()
     if isinstance(b, IterVal):
-        b = b.seq
+        b = b.drain()
     seqs = (SymSeq, list, tuple)
     if t is ast.Add and isinstance(a, seqs) and isinstance(b, seqs):
         kind = "list" if (isinstance(a, list) or getattr(a, "kind", "") == "list") else "tuple"
@@ -644,9 +650,9 @@ _CMP_DUNDER = {ast.Eq: "__eq__", ast.NotEq: "__ne__", ast.Lt: "__lt__", ast.LtE:
 def compare(I, op, a, b):
     t = type(op)
     if isinstance(a, IterVal):
-        a = a.seq
+        a = a.drain()
     if isinstance(b, IterVal):
-        b = b.seq
+        b = b.drain()
     if t in (ast.In, ast.NotIn):
         r = contains(I, b, a)
         return r if t is ast.In else znot(r)
@@ -1047,7 +1053,7 @@ def _as_set_arr(I, x):
     if isinstance(x, (set, frozenset, list, tuple)) and all(is_intlike(e) for e in x):
         return _concrete_set(x)
     if isinstance(x, IterVal):
-        return _as_set_arr(I, x.seq)
+        return _as_set_arr(I, x.drain())
     if isinstance(x, SymSeq):
         org = getattr(x, "origin_set", None)
         if org is not None:
@@ -1181,7 +1187,7 @@ def make_builtins(I):
     _CUR[0] = I
     def b_len(x):
         if isinstance(x, IterVal):
-            x = x.seq
+            x = x.drain()
         if isinstance(x, SymSeq):
             return x.length
         if isinstance(x, SymSet):
@@ -1214,7 +1220,7 @@ def make_builtins(I):
 
     def b_tuple(x=()):
         if isinstance(x, IterVal):
-            x = x.seq
+            x = x.drain()
         if isinstance(x, SymSeq):
             r = SymSeq(x.length, x.elem, "tuple", x.name)
             if hasattr(x, "origin_set"):
@@ -1239,7 +1245,7 @@ def make_builtins(I):
 
     def b_list(x=()):
         if isinstance(x, IterVal):
-            x = x.seq
+            x = x.drain()
         if isinstance(x, SymSet):
             return set_enumeration(x)
         if isinstance(x, SymSeq):
@@ -1250,7 +1256,7 @@ def make_builtins(I):
         return list(iterate(I, x))
 
     def b_zip(*xs):
-        xs = [x.seq if isinstance(x, IterVal) else x for x in xs]
+        xs = [x.drain() if isinstance(x, IterVal) else x for x in xs]
         if all(not isinstance(x, SymSeq) or isinstance(x.length, int) for x in xs):
             return list(zip(*[iterate(I, x) for x in xs]))
         ss = [as_symseq(x) if not isinstance(x, SymSeq) else x for x in xs]
@@ -1261,14 +1267,14 @@ def make_builtins(I):
 
     def b_enumerate(x, start=0):
         if isinstance(x, IterVal):
-            x = x.seq
+            x = x.drain()
         if isinstance(x, SymSeq) and not isinstance(x.length, int):
             return SymSeq(x.length, lambda i, x=x: (i + start, x.elem(i)), "enumerate")
         return [(i + start, v) for i, v in enumerate(iterate(I, x))]
 
     def _quant(x, is_all):
         if isinstance(x, IterVal):
-            x = x.seq
+            x = x.drain()
         if isinstance(x, MRSeq):
             ds = [z3.Int(I.path.fresh_name("d_q")) for _ in x.sizes]
             body = to_z3(I.truth(x.body_fn(ds)))
@@ -1350,7 +1356,7 @@ def make_builtins(I):
 
     def b_sorted(x, key=None, reverse=False):
         if isinstance(x, IterVal):
-            x = x.seq
+            x = x.drain()
         if key is not None or reverse:
             # stable sort by key over a sequence of concrete length: insertion sort branching on the key comparisons
             items = iterate(I, x)
@@ -1481,7 +1487,7 @@ def make_builtins(I):
         "super": b_super, "sorted": b_sorted, "frozenset": b_frozenset, "set": lambda x=(): set(hashable(e) for e in iterate(I, x)),
         "min": b_minmax(True), "max": b_minmax(False), "sum": b_sum, "int": b_int,
         "bool": lambda x=False: I.truth(x), "float": lambda x=0.0: x, "abs": lambda x: zite(to_z3(x) >= 0, x, -x) if is_z3(x) else abs(x),
-        "iter": lambda x: IterVal(x.seq if isinstance(x, IterVal) else x), "next": b_next,
+        "iter": lambda x: x if isinstance(x, IterVal) else IterVal(x), "next": b_next,
         "reversed": lambda x: list(reversed(iterate(I, x))), "dict": lambda x=(), **kw: {**({hashable(k): v for k, v in (x.items() if isinstance(x, dict) else iterate(I, x))}), **kw},
         "getattr": b_getattr, "hasattr": lambda o, n: _has(I, o, n), "print": lambda *a, **k: None, "id": lambda o: id(o),
         "type": b_type, "str": lambda x="": "<str>" if not isinstance(x, str) else x, "repr": lambda x: "<repr>",
